@@ -9,10 +9,10 @@ SPEC = {
     "corr_require": "Require Import MS.Base.Hex MS.Corr.C06.",
     "agrees": "C06.agrees",
     "in_domain": "C06.in_domain",
-    "model_prop": "fun k => implb (C06.in_domain k) (C06.model_applies_required k) && C06.model_applied_framed k",
-    "n_quick": 170,
+    "model_prop": "C06.model_prop",
+    "n_quick": 110,
     "n_thorough": 6000,
-    "shard": 12,
+    "shard": 8,
     "rule": "see harness/props/c06.go: valid WAL files written by the real writer (1-5 transaction groups into two 1D buckets, optional "
             "checkpoint), 1-3 structured mutations (truncate at record/field boundaries and random offsets, bit flip, zero fill, overwrite, "
             "inserted garbage / nine zeros / lone message ids, delete / duplicate / swap records, length-field edits incl. 0..8, -1, +-1, "
